@@ -205,6 +205,12 @@ pub trait Motif {
         let mut best_m = Vec::new();
         // we have to look at slices, so a simple iterator won't do
         let seq = seq_it.into_iter().map(|c| *c.borrow()).collect_vec();
+        if seq.len() < pssm_len {
+            return Err(Error::QueryTooShort {
+                motif_len: pssm_len,
+                query_len: seq.len(),
+            });
+        }
         let scores = self.get_scores();
         for start in 0..=seq.len() - pssm_len {
             let m: Vec<f32> = match (0..pssm_len)
